@@ -225,6 +225,11 @@ type Raft struct {
 	// machine is being restored from one. Operations are not applied meanwhile.
 	snapshotting bool
 
+	// The number of InstallSnapshot calls that have adopted their snapshot's last included
+	// index but have not replaced the log and the state machine's state yet. Entries are not
+	// appended to the log in the meantime: they would be discarded with it.
+	installing int
+
 	// Indicates that this node has won a prevote and has not yet held the
 	// election that the prevote permits.
 	electionPermitted bool
@@ -897,6 +902,16 @@ func (r *Raft) AppendEntries(request *AppendEntriesRequest, response *AppendEntr
 		r.becomeFollower(request.LeaderID, request.Term)
 	}
 
+	// A snapshot is being installed: its last included index is in force already, but the state
+	// machine is still being restored and the log has not been replaced yet. Entries appended now
+	// would be acknowledged and then discarded together with the old log when the installation
+	// finishes. Have the leader try again.
+	if r.installing > 0 {
+		r.logger.Debug("AppendEntries RPC rejected: reason = snapshot installation in progress")
+		response.Index = r.lastIncludedIndex + 1
+		return nil
+	}
+
 	// Reject the request if the log has been compacted and no longer contains the previous log entry.
 	if r.lastIncludedIndex > request.PrevLogIndex {
 		r.logger.Debugf(
@@ -1532,6 +1547,10 @@ func (r *Raft) InstallSnapshot(
 
 		return nil
 	}
+
+	// From here until the log has been discarded, AppendEntries requests are turned away.
+	r.installing++
+	defer func() { r.installing-- }()
 
 	snapshot, err := r.snapshotStorage.SnapshotFile()
 	if err != nil {
